@@ -2267,5 +2267,12 @@ def shrink(c):
 # first frame's transform over non-uniform per-frame groups) is OPEN: signature above
 FINDINGS = {'D106': _sig_d106}
 
+
+def extra_obligations(work):
+    # T-int: the flag gate this model mirrors, re-translated from the current source
+    import translate_int
+    return translate_int.obligations(work, translate_int.FOR['C06'])
+
+
 if __name__ == '__main__':
     sys.exit(common.main(sys.modules[__name__]))
